@@ -78,7 +78,7 @@ package prelude
 //@   trusted
 
 //@ func (_.RnsKeeper).Resolve
-//@   uses storagepay
+//@   uses rnsresolve
 //@   args recv ctx name
 //@   assumes A-RNSCONST: rns tables and the oracle price do not change during one storage handler
 //@   ensures (err == nil) == rns_resolve_ok(name)
